@@ -483,9 +483,13 @@ class Engine:
         if isinstance(base, FuncRef) and base.name == "int":
             return BoundMethod(base, n.attr)
         if isinstance(base, OpaqueV):
-            return BoundMethod(base, n.attr)
+            # data attribute or method of an unknown value: a memoised unknown child (calling it yields an unknown value)
+            key = ("attr", n.attr)
+            if key not in base.memo:
+                base.memo[key] = OpaqueV(f"{base.tag}.{n.attr}")
+            return base.memo[key]
         if getattr(self.model, "gate_mode", False):
-            return BoundMethod(OpaqueV(f"attr:{n.attr}"), n.attr)
+            return OpaqueV(f"attr:{n.attr}")
         if isinstance(base, OptV) and isinstance(base.val, ObjV):
             self.may_raise("AttributeError", st, z3.Not(base.is_none), n)
             return self.ev_attr_on(base.val, n, st)
@@ -803,8 +807,14 @@ class Engine:
     def ev_Subscript(self, n, st):
         base = self.ev(n.value, st)
         if isinstance(base, OpaqueV) or (getattr(self.model, "gate_mode", False) and isinstance(base, (BoundMethod, FuncRef))):
+            idx = None
             if not isinstance(n.slice, ast.Slice):
-                self.ev(n.slice, st)
+                idx = self.ev(n.slice, st)
+            if isinstance(base, OpaqueV) and isinstance(idx, StrV):
+                key = ("item", idx.s)
+                if key not in base.memo:
+                    base.memo[key] = OpaqueV(f"{base.tag}[{idx.s!r}]")
+                return base.memo[key]
             return OpaqueV("item")
         if isinstance(base, OptV) and isinstance(base.val, BytesV):
             self.may_raise("TypeError", st, z3.Not(base.is_none), n)
@@ -867,12 +877,14 @@ class Engine:
                     self.model.on_set_append(self, st, recv, x, n)
                 return NoneV()
             if isinstance(recv, OpaqueV):
-                return OpaqueV(recv.tag)
+                return OpaqueV(recv.tag + "()")
             if isinstance(recv, BytesV) and f.name == "decode":
                 return OpaqueV("str")
             if isinstance(recv, ListV) and f.name == "append":
                 tgt = n.func.value
                 if not isinstance(tgt, ast.Name):
+                    if getattr(self.model, "gate_mode", False):
+                        return NoneV()
                     raise Unsupported("append on non-name")
                 x = args[0]
                 if isinstance(x, TupleV):
@@ -891,6 +903,10 @@ class Engine:
                     if isinstance(lst, ListV):
                         return lst.joined
                 raise Unsupported(f"join@{n.lineno}")
+        if isinstance(f, OpaqueV) and not n.args and not n.keywords:
+            if ("call0",) not in f.memo:  # a zero-argument call on an unknown value: one (memoised) unknown result
+                f.memo[("call0",)] = OpaqueV(f.tag + "()")
+            return f.memo[("call0",)]
         if isinstance(f, OpaqueV) or (isinstance(f, BoundMethod) and isinstance(f.recv, OpaqueV)):
             return OpaqueV("call")
         if getattr(self.model, "gate_mode", False):
@@ -1042,6 +1058,13 @@ class Engine:
         if isinstance(tgt, ast.Name):
             st.env[tgt.id] = v
         elif isinstance(tgt, (ast.Tuple, ast.List)):
+            if isinstance(v, OpaqueV):
+                for i, t in enumerate(tgt.elts):
+                    key = ("unpack", i)
+                    if key not in v.memo:
+                        v.memo[key] = OpaqueV(f"{v.tag}#{i}")
+                    self.assign(t, v.memo[key], st, node)
+                return
             if not isinstance(v, TupleV) or len(v.items) != len(tgt.elts):
                 raise Unsupported(f"unpack {type(v).__name__}@{node.lineno}")
             for t, x in zip(tgt.elts, v.items):
